@@ -211,6 +211,8 @@ func checkStmt(dialect, qual, q string, u *universe, st stmt, stats *refStats) (
 			}
 		case "nil":
 			switch {
+			case home == "*" || home == "" && len(got) == 0:
+				// the type carries no schema (or not the same one in both states): nothing to demand
 			case len(got) == 0:
 				add("default-unqualified", kind, ctx, fmt.Sprintf("%s reference %s is not qualified with its schema %q although no qualifier option was given", kind, written, home))
 			case len(got) != 1 || got[0] != home:
